@@ -723,8 +723,11 @@ impl Conv<&IfResetStatement> for ir::StatementBlock {
                 continue;
             }
 
-            let true_side: ir::StatementBlock = Conv::conv(context, x.statement_block.as_ref())?;
-            let true_side = true_side.0;
+            let true_side: IrResult<ir::StatementBlock> = context
+                .with_condition_domain(comptime.clone(), |c| {
+                    Conv::conv(c, x.statement_block.as_ref())
+                });
+            let true_side = true_side?.0;
 
             // The uncovered-branch check that motivates this in `if` is comb-only;
             // here it just keeps a dead always-true node out of the IR.
